@@ -23,7 +23,7 @@ func init() {
 		Title:       "Generated connection files are well-formed and round-trip through the parser",
 		DesignRef:   "DESIGN.md §3 C19",
 		Technique:   "static evaluation of RdpSettings' struct tags (finite table) + exhaustiveness of the kind switches + path enumeration of the line writer's loop body (token sequence per kind) + sibling agreement of Marshal/Unmarshal type letters and error discipline of the parser + dominance of the forced settings",
-		LevelText:   "Static: the settings table both sides are generated from is checked — every field has a distinct, colon- and newline-free rdp name, a default that parses for its kind, and one of the three handled kinds; each kind switch handles exactly those kinds and both default readers accept the same bool literals; every path through the line writer's loop body that writes anything writes name, ':', the type letter of the field's kind, the value, CRLF in that order; 'is default' is decided by an equality with the parsed default (IsZero only without a default tag); the parser splits each line into exactly three fields at the first two ':' and every malformed line (field count, unknown letter, bad integer) ends the parse with an error instead of continuing; Marshal's letters are accepted by Unmarshal with the inverse conversion; the gateway-controlled settings are stored after the template is loaded and before the file is rendered, on every path. Decides the finite tables and the shape of each line; not parse(marshal(m)) == m for all values.",
+		LevelText:   "Static: the settings table both sides are generated from is checked — every field has a distinct, colon- and newline-free rdp name, a default that parses for its kind, and one of the three handled kinds; each kind switch handles exactly those kinds and both default readers accept the same bool literals; every path through the line writer's loop body that writes anything writes name, ':', the type letter of the field's kind, the value, CRLF in that order; 'is default' is decided by an equality with the parsed default (IsZero only without a default tag); the parser splits each line into exactly three fields at the first two ':' and every malformed line (field count, unknown letter, bad integer) ends the parse with an error instead of continuing; Marshal's letters are accepted by Unmarshal with the inverse conversion; the gateway-controlled settings are stored after the template is loaded and before the file is rendered, on every path, and user name and domain are written only when NoUsername is off (suppressed means the template's values stay). Decides the finite tables and the shape of each line; not parse(marshal(m)) == m for all values.",
 		LevelNote:   "Trusted: fatih/structs (field iteration, tags, kinds), mapstructure/koanf template decoding, bufio.Scanner. Not decided: round-trip equality for all values (trimming, Scanner line limits), which template settings survive decoding.",
 		Explanation: "C19/tags evaluates the struct tags of rdp.RdpSettings from go/types. C19/kinds collects the reflect.Kind constants each switch compares with. C19/line-shape enumerates the acyclic paths of one loop iteration of addStructToString as token sequences. C19/default-compare cuts equality edges in isZero. C19/parser checks SplitN's arguments, the three-field test and that every malformed-line edge cannot reach the loop head again. C19/letters compares Marshal's format strings with Unmarshal's accepted letters. C19/forced checks the stores in HandleDownload.",
 		Assumptions: []string{"values free of CR/LF (as in the property's quantifier)"},
@@ -676,6 +676,13 @@ func c19Forced(c *Ctx) {
 	} else {
 		leak := reachWithoutMarkerAvoiding(fn, str, func(in ssa.Instruction) bool { return in == ssa.Instruction(ss[0]) }, GTrue(isNoUser))
 		c.Check(!leak, rule, "HandleDownload Username", ss[0].Pos(), "written unless NoUsername", "the template's user name survives although NoUsername is off")
+	}
+	// ... and, with NoUsername set, neither the user name nor the domain is forced (the template's stay)
+	for _, name := range []string{"Username", "Domain"} {
+		for i, st := range stores[name] {
+			ok, why := mustPass(fn, st, GFalse(isNoUser))
+			c.Check(ok, rule, fmt.Sprintf("HandleDownload %s suppressed#%d", name, i), st.Pos(), name+" is written only when NoUsername is off", "the "+name+" setting is forced "+why+" of !NoUsername: with user name and domain suppressed the file still carries (or overwrites the template's) "+name)
+		}
 	}
 	// response body is the rendered builder
 	bodyOK := false
